@@ -50,7 +50,7 @@ def gen(seed, idx, tier):
     spec["opt"]["ccd_iterations"] = int(r.choice([0, 1, 2]))
   capk = {}
   for kind in ("naconmax", "njmax", "njmax_nnz", "nvmax", "naccdmax"):
-    capk[kind] = str(r.choice(["ample", "ample", "zero", "one", "two", "exact", "short", "half"]))
+    capk[kind] = str(r.choice(["ample", "ample", "zero", "one", "two", "exact", "short", "half", "pad16", "pad16", "rand"]))
   return {
     "property": ID, "seed": seed, "idx": idx, "model": spec, "nworld": int(r.choice([1, 2, 3])), "rejected_models": rejected,
     "init": {"seed": int(r.integers(1 << 30)), "pos_noise": 0.15, "vel_noise": 1.0, "act_noise": 0.3},
@@ -61,10 +61,13 @@ def gen(seed, idx, tier):
   }  # fmt: skip
 
 
-def _cap(kind, mode, need, nv):
+def _cap(kind, mode, need, nv, salt=0):
   if mode == "ample":
     return None
-  base = {"zero": 0, "one": 1, "two": 2, "exact": need, "short": max(0, need - 1), "half": need // 2}[mode]
+  # pad16: the largest multiple of 16 below the need (several buffers are padded to tile multiples: a block of rows that straddles a
+  # capacity which is itself a tile multiple has no zeroed padding behind it); rand: any value in [1, need]
+  base = {"zero": 0, "one": 1, "two": 2, "exact": need, "short": max(0, need - 1), "half": need // 2,
+          "pad16": (max(0, need - 1) // 16) * 16, "rand": 1 + (salt % max(1, need))}[mode]
   if kind == "nvmax":
     base = min(base, nv)
   return int(base)
@@ -99,7 +102,7 @@ def run(sc):
   need["njmax_nnz"] = need["njmax"] * 2
   caps = {}
   for kind, mode in sc["cap_kinds"].items():
-    c = _cap(kind, mode, need[kind], mjm.nv)
+    c = _cap(kind, mode, need[kind], mjm.nv, salt=int(_rng.mix(sc["hist_seed"], kind) % 100003))
     if c is not None:
       caps[kind] = c
   if "naccdmax" in caps and "naconmax" in caps:
